@@ -125,6 +125,18 @@ func (g *Graph) continueWalking(found chan x509.CertificateChain, start *GraphEd
 		}
 
 	}
+
+	// A root certificate for the current node ends a chain even when its own
+	// issuer is not in the graph. Such edges are not in parentsBySubjectAndKey.
+	for _, edge := range current.parentsWithoutIssuer.edges {
+		if !edge.root {
+			continue
+		}
+		if canAddToChain(edge.Certificate, x509.CertificateTypeRoot, soFar) != nil {
+			continue
+		}
+		g.continueWalking(found, start, nil, soFar.AppendToFreshChain(edge.Certificate), edge)
+	}
 	return
 }
 
